@@ -133,7 +133,18 @@ func runHistory(t *testing.T, seed int64, blocks int) (string, map[string]int, s
 			before := w.holdings()
 			res := w.deliver(op.name, op.signer, op.params, op.run)
 			if histDebug {
-				fmt.Printf("h=%d %s signer=%d result=%d %s\n", w.height, res.name, res.signer, res.result, res.errMsg)
+				sn := w.snap()
+				fmt.Printf("h=%d %s signer=%d result=%d %s | bonded %s ledger %s notbonded %s ledger %s dispute %s params %v\n", w.height, res.name, res.signer, res.result, res.errMsg,
+					sn.bonded, sn.bondedLedger, sn.notBonded, sn.nbLedger, sn.dispute, op.params)
+				if os.Getenv("HIST_DISPUTES") != "" && res.result == 0 && (strings.Contains(res.name, "Dispute") || strings.Contains(res.name, "Refund") || res.name == "Vote") {
+					for _, id := range w.allDisputeIDs(6) {
+						if d, err := w.s.Disputekeeper.Disputes.Get(w.ctx, id); err == nil {
+							v, _ := w.s.Disputekeeper.Votes.Get(w.ctx, id)
+							fmt.Printf("    dispute %d status %v cat %v slash %s fee %s feeTotal %s burn %s reward %s open %v pending %v round %d reporter %s power %d result %v executed %v\n", id, d.DisputeStatus, d.DisputeCategory,
+								d.SlashAmount, d.DisputeFee, d.FeeTotal, d.BurnAmount, d.VoterReward, d.Open, d.PendingExecution, d.DisputeRound, d.InitialEvidence.Reporter[:12], d.InitialEvidence.Power, v.VoteResult, v.Executed)
+						}
+					}
+				}
 			}
 			after := w.holdings()
 			ds := diffHoldings(before, after, op.signer, op.roles)
